@@ -14,8 +14,9 @@
    Agreement on the exception class is required only where a single documented precondition is violated (BigInt: exception set of
    size one); where the specification is silent a disagreement is reported as "note: ..." and is not a verdict.
    Verdict: "ok" | "silent: why" | "note: ..." | "harness: ..." | clauses "who: clause | ..." ("*" = all configurations). *)
-EXTENDS BigInt, FiniteSets, Json, IOUtils
+EXTENDS Integers, Sequences, FiniteSets, Bitwise, TLC, Json, IOUtils
 LOCAL INSTANCE SequencesExt
+INSTANCE BigInt        \* not EXTENDS: the ASSUMEd vectors of the data layer are evaluated once by the orchestrator, not in each shard JVM
 AE == INSTANCE AesAead
 Traces == JsonDeserialize(IOEnv.TRACE_FILE)
 
